@@ -30,16 +30,18 @@ mod verif_c06 {
     }
 
     // ---- uninterpreted extend / convert: memoised nondeterminism keyed on the seed (equal seeds => equal results)
-    const NM: usize = 6;
-    static mut EXT_TAB: [([u8; 16], [[u8; 16]; 2], [u8; 2]); NM] = [([0; 16], [[0; 16]; 2], [0; 2]); NM];
+    // table sizes: one level touches at most 2 distinct seeds for extend (the two parties' keys) and 4 for convert
+    const NM: usize = 4;
+    const NE: usize = 2;
+    static mut EXT_TAB: [([u8; 16], [[u8; 16]; 2], [u8; 2]); NE] = [([0; 16], [[0; 16]; 2], [0; 2]); NE];
     static mut EXT_N: usize = 0;
     static mut CNV_TAB: [([u8; 16], [u8; 16], u64); NM] = [([0; 16], [0; 16], 0); NM];
     static mut CNV_N: usize = 0;
     fn extend_stub(seed: &[u8; 16], _mode: &XofMode<'_>) -> ([[u8; 16]; 2], [Choice; 2]) {
         unsafe {
             let mut i = 0;
-            while i < NM { if i < EXT_N && EXT_TAB[i].0 == *seed { let e = EXT_TAB[i]; return (e.1, [Choice::from(e.2[0]), Choice::from(e.2[1])]); } i += 1; }
-            assert!(EXT_N < NM);
+            while i < NE { if i < EXT_N && EXT_TAB[i].0 == *seed { let e = EXT_TAB[i]; return (e.1, [Choice::from(e.2[0]), Choice::from(e.2[1])]); } i += 1; }
+            assert!(EXT_N < NE);
             let mut s: [[u8; 16]; 2] = kani::any();
             s[0][0] &= 0xfe; s[1][0] &= 0xfe;          // extend() clears the stolen control bits
             let t: [u8; 2] = kani::any();
